@@ -16,27 +16,20 @@ abbrev Bytes := Array Nat
 
 def runeError : Nat := 0xFFFD
 
-/-- utf8.DecodeRuneInString at byte offset `i` (i < size): (rune, width); invalid ⇒ (U+FFFD, 1) -/
-def decodeRune (b : Bytes) (i : Nat) : Nat × Nat :=
-  let n := b.size - i
-  let c0 := b.getD i 0
+/-- utf8.DecodeRuneInString on the next (up to four) bytes `c0 c1 c2 c3` of which `n ≥ 1` exist:
+    (rune, width); invalid ⇒ (U+FFFD, 1) -/
+def decodeBytes (n c0 c1 c2 c3 : Nat) : Nat × Nat :=
   let cont (c : Nat) : Bool := 0x80 ≤ c && c ≤ 0xBF
   if c0 < 0x80 then (c0, 1)
   else if c0 < 0xC2 then (runeError, 1)
   else if c0 < 0xE0 then
-    let c1 := b.getD (i+1) 0
     if n ≥ 2 && cont c1 then ((c0 % 32) * 64 + (c1 % 64), 2) else (runeError, 1)
   else if c0 < 0xF0 then
-    let c1 := b.getD (i+1) 0
-    let c2 := b.getD (i+2) 0
     let lo := if c0 = 0xE0 then 0xA0 else 0x80
     let hi := if c0 = 0xED then 0x9F else 0xBF
     if n ≥ 3 && lo ≤ c1 && c1 ≤ hi && cont c2 then ((c0 % 16) * 4096 + (c1 % 64) * 64 + (c2 % 64), 3)
     else (runeError, 1)
   else if c0 < 0xF5 then
-    let c1 := b.getD (i+1) 0
-    let c2 := b.getD (i+2) 0
-    let c3 := b.getD (i+3) 0
     let lo := if c0 = 0xF0 then 0x90 else 0x80
     let hi := if c0 = 0xF4 then 0x8F else 0xBF
     if n ≥ 4 && lo ≤ c1 && c1 ≤ hi && cont c2 && cont c3 then
@@ -44,15 +37,46 @@ def decodeRune (b : Bytes) (i : Nat) : Nat × Nat :=
     else (runeError, 1)
   else (runeError, 1)
 
+/-- utf8.DecodeRuneInString at byte offset `i` (i < size): (rune, width); invalid ⇒ (U+FFFD, 1) -/
+def decodeRune (b : Bytes) (i : Nat) : Nat × Nat :=
+  decodeBytes (b.size - i) (b.getD i 0) (b.getD (i+1) 0) (b.getD (i+2) 0) (b.getD (i+3) 0)
+
 /-- unicode.IsSpace (complete) -/
 def isSpace (r : Nat) : Bool :=
   r = 9 || r = 10 || r = 11 || r = 12 || r = 13 || r = 32 || r = 0x85 || r = 0xA0 ||
   r = 0x1680 || (0x2000 ≤ r && r ≤ 0x200A) || r = 0x2028 || r = 0x2029 || r = 0x202F || r = 0x205F || r = 0x3000
 /-- unicode.IsControl (complete) -/
 def isControl (r : Nat) : Bool := r ≤ 0x1F || (0x7F ≤ r && r ≤ 0x9F)
-/-- unicode.IsNumber: exact on ASCII and Latin-1 only (declared limitation) -/
+/-- Go's `unicode.N` range table (go1.23.5, Unicode 15.0.0): (lo, hi, stride) -/
+def numberRanges : List (Nat × Nat × Nat) :=
+  [(48, 57, 1), (178, 179, 1), (185, 188, 3), (189, 190, 1), (1632, 1641, 1), (1776, 1785, 1), (1984, 1993, 1),
+   (2406, 2415, 1), (2534, 2543, 1), (2548, 2553, 1), (2662, 2671, 1), (2790, 2799, 1), (2918, 2927, 1), (2930,
+   2935, 1), (3046, 3058, 1), (3174, 3183, 1), (3192, 3198, 1), (3302, 3311, 1), (3416, 3422, 1), (3430, 3448,
+   1), (3558, 3567, 1), (3664, 3673, 1), (3792, 3801, 1), (3872, 3891, 1), (4160, 4169, 1), (4240, 4249, 1),
+   (4969, 4988, 1), (5870, 5872, 1), (6112, 6121, 1), (6128, 6137, 1), (6160, 6169, 1), (6470, 6479, 1), (6608,
+   6618, 1), (6784, 6793, 1), (6800, 6809, 1), (6992, 7001, 1), (7088, 7097, 1), (7232, 7241, 1), (7248, 7257,
+   1), (8304, 8308, 4), (8309, 8313, 1), (8320, 8329, 1), (8528, 8578, 1), (8581, 8585, 1), (9312, 9371, 1),
+   (9450, 9471, 1), (10102, 10131, 1), (11517, 12295, 778), (12321, 12329, 1), (12344, 12346, 1), (12690, 12693,
+   1), (12832, 12841, 1), (12872, 12879, 1), (12881, 12895, 1), (12928, 12937, 1), (12977, 12991, 1), (42528,
+   42537, 1), (42726, 42735, 1), (43056, 43061, 1), (43216, 43225, 1), (43264, 43273, 1), (43472, 43481, 1),
+   (43504, 43513, 1), (43600, 43609, 1), (44016, 44025, 1), (65296, 65305, 1), (65799, 65843, 1), (65856, 65912,
+   1), (65930, 65931, 1), (66273, 66299, 1), (66336, 66339, 1), (66369, 66378, 9), (66513, 66517, 1), (66720,
+   66729, 1), (67672, 67679, 1), (67705, 67711, 1), (67751, 67759, 1), (67835, 67839, 1), (67862, 67867, 1),
+   (68028, 68029, 1), (68032, 68047, 1), (68050, 68095, 1), (68160, 68168, 1), (68221, 68222, 1), (68253, 68255,
+   1), (68331, 68335, 1), (68440, 68447, 1), (68472, 68479, 1), (68521, 68527, 1), (68858, 68863, 1), (68912,
+   68921, 1), (69216, 69246, 1), (69405, 69414, 1), (69457, 69460, 1), (69573, 69579, 1), (69714, 69743, 1),
+   (69872, 69881, 1), (69942, 69951, 1), (70096, 70105, 1), (70113, 70132, 1), (70384, 70393, 1), (70736, 70745,
+   1), (70864, 70873, 1), (71248, 71257, 1), (71360, 71369, 1), (71472, 71483, 1), (71904, 71922, 1), (72016,
+   72025, 1), (72784, 72812, 1), (73040, 73049, 1), (73120, 73129, 1), (73552, 73561, 1), (73664, 73684, 1),
+   (74752, 74862, 1), (92768, 92777, 1), (92864, 92873, 1), (93008, 93017, 1), (93019, 93025, 1), (93824, 93846,
+   1), (119488, 119507, 1), (119520, 119539, 1), (119648, 119672, 1), (120782, 120831, 1), (123200, 123209, 1),
+   (123632, 123641, 1), (124144, 124153, 1), (125127, 125135, 1), (125264, 125273, 1), (126065, 126123, 1),
+   (126125, 126127, 1), (126129, 126132, 1), (126209, 126253, 1), (126255, 126269, 1), (127232, 127244, 1),
+   (130032, 130041, 1)]
+/-- unicode.IsNumber: membership in `unicode.N` -/
 def isNumber (r : Nat) : Bool :=
-  (0x30 ≤ r && r ≤ 0x39) || r = 0xB2 || r = 0xB3 || r = 0xB9 || r = 0xBC || r = 0xBD || r = 0xBE
+  if r < 0x80 then 0x30 ≤ r && r ≤ 0x39
+  else numberRanges.any fun (lo, hi, st) => lo ≤ r && r ≤ hi && (r - lo) % st = 0
 
 structure Tok where
   id : Nat
@@ -225,20 +249,35 @@ def lexTextBlock (l : L) : L :=
     let (l, r, early) := loop (l.inp.size + 2) l r
     if early then l else if r != none then l.backup 0 else l
 
+def digitsVal (ds : List Nat) : Nat := ds.foldl (fun acc d => acc * 10 + (d - 48)) 0
+
+/-- smallest value that strconv.ParseFloat(…, 64) rounds to +Inf (ErrRange): 2^1024 − 2^970 -/
+def floatOverflow : Nat := 2 ^ 1024 - 2 ^ 970
+
+/-- `m · 10^e / 10^f` overflows float64 (exact comparison; a huge exponent is cut off first) -/
+def overflows (m e f : Nat) : Bool :=
+  if m = 0 then false
+  else if e > f + 400 then true
+  else if e ≥ f then m * 10 ^ (e - f) ≥ floatOverflow
+  else m ≥ floatOverflow * 10 ^ (f - e)
+
 /-- candidate accepted by strconv.ParseFloat among strings over [0-9 . e +] starting with a digit:
-    digits [ '.' digits* ] [ 'e' '+' digits+ ]   (range errors for huge exponents are outside the model) -/
+    digits [ '.' digits* ] [ 'e' '+' digits+ ], and the value does not overflow float64 -/
 def validFloat (s : List Nat) : Bool :=
   let isD (c : Nat) : Bool := 48 ≤ c && c ≤ 57
   let intPart := s.takeWhile isD
   let rest := s.dropWhile isD
   if intPart.isEmpty then false
   else
-    let rest := match rest with
-      | 46 :: r => r.dropWhile isD
-      | r => r
+    let (frac, rest) := match rest with
+      | 46 :: r => (r.takeWhile isD, r.dropWhile isD)
+      | r => ([], r)
+    let m := digitsVal (intPart ++ frac)
     match rest with
-    | [] => true
-    | 101 :: 43 :: e => !e.isEmpty && e.all isD
+    | [] => !overflows m 0 frac.length
+    | 101 :: 43 :: e =>
+      !e.isEmpty && e.all isD &&
+        !(if (e.dropWhile (· = 48)).length > 6 then m != 0 else overflows m (digitsVal e) frac.length)
     | _ => false
 
 def hexv (c : Nat) : Option Nat :=
